@@ -582,4 +582,16 @@ theorem C19_stops_only_on_stream_errors (x : Ext) (st : NodeSt) (evs : List Ev) 
   · intro he; rw [he] at h; simp [keepGoing] at h
   · intro b he; rw [he] at h; simp [keepGoing] at h
 
+/-- The state the receiver/routing model carries IS the state the node keeps (regenerated from the source on every run):
+registry, connections and the table of outstanding calls (plus name, cookie, creation, the two counters' owners, and the
+start flag); nothing else is consulted when a message is routed, in the struct or process-wide. -/
+theorem C19_state_is_the_sources_state :
+    Edp.Gen.STRUCT_Node =
+      ["name:Atom", "cookie:String", "creation:Arc<AtomicU32>", "pid_allocator:Arc<PidAllocator>",
+       "reference_counter:Arc<AtomicU32>", "registry:Arc<ProcessRegistry>",
+       "connections:Arc<DashMap<String,Arc<Mutex<Connection>>>>",
+       "pending_rpcs:Arc<DashMap<String,oneshot::Sender<OwnedTerm>>>", "started:Arc<AtomicBool>",
+       "listen_port:Option<u16>", "hidden:bool"]
+    ∧ Edp.Gen.PROCESS_WIDE_STATE = [] := by decide
+
 end Edp.Props.C19
